@@ -13,6 +13,8 @@ POOL = {"D0": 421, "K-": -321, "pi+": 211, "pi-": -211, "K+": 321, "pi0": 111, "
         "rho(1450)0": 100113, "omega(782)0": 223, "K(1)(1270)bar-": -10323, "K(1)(1270)+": 10323, "K(1)(1400)bar-": -20323, "K(1460)bar-": -100321,
         "K(2)*(1430)bar-": -325, "a(1)(1260)+": 20213, "a(1)(1260)-": -20213, "KPi00": 998111, "KPi10": 988111, "KPi20": 978111, "PiPi00": 998101,
         "PiPi10": 988101, "PiPi20": 978101, "PiPi30": 968101, "phi(1020)0": 333, "f(0)(980)0": 9010221, "f(2)(1270)0": 225, "K(0)*(1430)bar0": -10311}
+ALT_SPELLING = {"K*(892)bar0": "K*bar0", "K*(892)0": "K*0", "rho(770)0": "rho0", "K(1)(1270)bar-": "K(1)(1270)-", "a(1)(1260)+": "a(1)+", "K(1)(1400)bar-": "K(1)(1400)-"}
+POOL.update({"K*bar0": -313, "K*0": 313, "rho0": 113, "K(1)(1270)-": -10323, "a(1)+": 20213, "K(1)(1400)-": -20323})
 FINALS = ["K-", "pi+", "pi-", "K+"]
 RES2 = ["K*(892)bar0", "rho(770)0", "rho(1450)0", "omega(782)0", "KPi00", "PiPi00", "PiPi10", "phi(1020)0", "f(0)(980)0", "K*(892)0", "f(2)(1270)0"]
 RES3 = ["K(1)(1270)bar-", "K(1)(1400)bar-", "K(1460)bar-", "a(1)(1260)+", "K(2)*(1430)bar-", "K(1)(1270)+", "a(1)(1260)-"]
@@ -159,6 +161,25 @@ def gen_model(rng):
             dangling(a, acc)
             todo |= {x for x in acc if x not in done and x != nm}
         subl[nm] = alts
+    if rng.random() < 0.15:
+        # one *bare* use written in another accepted spelling of the same particle (K*bar0 for K*(892)bar0): sub-lines are given per written name,
+        # so that use finds none and stays as it is
+        bare = []
+
+        def collect(n):
+            if n.kids is None:
+                if n.name in ALT_SPELLING:
+                    bare.append(n)
+            else:
+                for k in n.kids:
+                    collect(k)
+
+        for t in tops:
+            collect(t)
+        if bare:
+            n = rng.choice(bare)
+            n.name = ALT_SPELLING[n.name]
+            n.alt_spelling = True
     lines = [{"kind": "top", "node": t} for t in tops] + [{"kind": "sub", "node": a} for nm in subl for a in subl[nm]]
     if rng.random() < 0.12:
         # the same complete line written twice (other couplings): two amplitudes, each stated once
